@@ -21,6 +21,10 @@ structure HState where
   hold : Bool := false
   live : List (String × Kind) := []   -- parked broadcasters (id, kind)
   fresh : Nat := 1
+  /-- a publication with offset that was started while the recovery buffer is locked: its goroutine sits
+  in `PubSubSync.SyncPublication` on `pubBufferMu` (holding the shard read lock and the broker's publish
+  lock) until the subscriber's `StopBuffering`; in the model that is "`bStart` not yet enabled" -/
+  sync : Option Nat := none
 
 def kindOfTag : String → Option Kind
   | "p" => some .pub0 | "h" => some .pubPos | "j" => some .join | "l" => some .leave | _ => none
@@ -71,7 +75,7 @@ def idxOf (k : Kind) (id : Nat) (l : List (Kind × Nat)) : Option Nat :=
   if i < l.length then some i else none
 
 /-- harness-level step -/
-def hstep (cfg : Cfg) (h : HState) (lab : String) : Option HState :=
+def hstepCore (cfg : Cfg) (h : HState) (lab : String) : Option HState :=
   let fin (h' : HState) : Option HState := some (afterLabel cfg h')
   match lab.splitOn ":" with
   | ["S"] =>
@@ -138,6 +142,29 @@ def hstep (cfg : Cfg) (h : HState) (lab : String) : Option HState :=
               else fin { h with s := s1, live := live' }
   | _ => none
 
+/-- harness-level step.  `Bq:h:n` starts a publication with offset while the subscriber, parked at its
+last gate, holds the locked recovery buffer: the only label possible afterwards is the subscriber's
+step, whose `StopBuffering` lets the publication continue (to the trace gate after the subscribed check). -/
+def hstep (cfg : Cfg) (h : HState) (lab : String) : Option HState :=
+  match h.sync with
+  | some n =>
+    if lab == "S" then
+      (hstepCore cfg { h with sync := none } "S").bind fun h1 => hstepCore cfg h1 ("B:h:" ++ toString n)
+    else none
+  | none =>
+    match lab.splitOn ":" with
+    | ["Bq", "h", n] =>
+      let atLast := match h.s.S with
+        | some t => if cfg.serverSide then t.pc == SPc.committed else t.pc == SPc.replied
+        | none => false
+      match n.toNat? with
+      | some k =>
+        if cfg.positioned && h.s.buf == Buf.locked && h.s.hub.isSome && !pubInFlight h.s && atLast
+            && (h.live.find? (·.1 == "h" ++ n)).isNone
+        then some { h with sync := some k } else none
+      | none => none
+    | _ => hstepCore cfg h lab
+
 def tok : Frame → String
   | .subStart => "S" | .subEnd => "E"
   | .push .pub0 n => s!"P0:p{n}" | .push .pubPos n => s!"PH:h{n}"
@@ -158,18 +185,11 @@ def liveStr (cfg : Cfg) (h : HState) : String :=
     | some u => match u.atGate with | some g => ["U@" ++ g] | none => ["U@?"]
     | none => []
   let ws := if h.hold && !h.s.inflight.isEmpty then ["W@write"] else []
-  joinWith "," (sortStrs (bs ++ ss ++ us ++ ws))
+  let qs := match h.sync with | some n => [s!"B:h{n}@sync"] | none => []
+  joinWith "," (sortStrs (bs ++ qs ++ ss ++ us ++ ws))
 
 def render (cfg : Cfg) (h : HState) : String :=
-  let bs := h.live.map fun (id, _) => "B:" ++ id ++ "@trace"
-  let ss := match h.s.S with
-    | some t => match t.atGate cfg with | some g => ["S@" ++ g] | none => ["S@?"]
-    | none => []
-  let us := match h.s.U with
-    | some u => match u.atGate with | some g => ["U@" ++ g] | none => ["U@?"]
-    | none => []
-  let ws := if h.hold && !h.s.inflight.isEmpty then ["W@write"] else []
-  s!"frames={joinWith "," (h.s.wire.map tok)} live={joinWith "," (sortStrs (bs ++ ss ++ us ++ ws))}"
+  s!"frames={joinWith "," (h.s.wire.map tok)} live={liveStr cfg h}"
 
 def parseCfg (ws : List String) : Cfg :=
   let b (k : String) : Bool := kv ws k == some "1"
@@ -188,7 +208,7 @@ def candidates (h : HState) : List String :=
   let n := toString h.fresh
   let liveLabs := h.live.map fun (id, k) => "B:" ++ tagOfKind k ++ ":" ++ (id.drop 1).toString
   ["S", "S", "S", "Uc", "Us", "B:p:" ++ n, "B:p:" ++ n, "B:h:" ++ n, "B:h:" ++ n, "B:j:" ++ n, "B:l:" ++ n,
-   "WH", "WR", "WR", "T"] ++ liveLabs ++ liveLabs
+   "WH", "WR", "WR", "T", "Bq:h:" ++ n, "Bq:h:" ++ n, "Bq:h:" ++ n, "Bq:h:" ++ n] ++ liveLabs ++ liveLabs
 
 def genLabels (cfg : Cfg) : HState → List Nat → List String → List String → HState × List String × List String
   | h, [], acc, tr => (h, acc.reverse, tr.reverse)
@@ -199,7 +219,7 @@ def genLabels (cfg : Cfg) : HState → List Nat → List String → List String 
       match en[r % en.length]? with
       | none => (h, acc.reverse, tr.reverse)
       | some (l, h') =>
-        let h'' := if l.startsWith "B:" && (l.splitOn ":").getLast? == some (toString h.fresh)
+        let h'' := if (l.startsWith "B:" || l.startsWith "Bq:") && (l.splitOn ":").getLast? == some (toString h.fresh)
           then { h' with fresh := h'.fresh + 1 } else h'
         genLabels cfg h'' rs (l :: acc) (liveStr cfg h'' :: tr)
 
